@@ -19,7 +19,8 @@ Line by line:
    * `float64` — every integer kind (round to nearest-even, `roundF64`) and both float kinds;
    * `[]any`   — only `[]any` itself (passed by reference, elements untouched — but see `holdsDrop` below);
    * `time.Time` — only `time.Time`.
-3. `typ == time.Time` and a string ⇒ `ParseDate` (`unmodelled`).
+3. `typ == time.Time` and a string ⇒ `ParseDate` (`Cal.parseDate` in `Liquid/Time.lean`: the five
+   all-digit layouts under `time.Local` = UTC; `now` and every other string `unmodelled`).
 4. the `switch typ.Kind()`:
    * Bool: `!(value == nil || value == false)`;
    * Int: `bool` ⇒ 0/1, `string` ⇒ `strconv.ParseInt(s, 10, 64)`, anything else (nil included) `TypeError`;
@@ -34,7 +35,7 @@ Line by line:
      `ToLiquid` is the identity on everything but drops, both cases are `xs.map toLiquid`.
      NB `Convert(nil, any)` itself is still a `TypeError` (no rule applies to a nil value and an
      interface target): only the element position keeps a nil;
-   * String: `[]byte` ⇒ the bytes; `fmt.Stringer` (only `time.Time` in the model ⇒ `unmodelled`);
+   * String: `[]byte` ⇒ the bytes; `fmt.Stringer` (only `time.Time` in the model ⇒ `Time.String()`, `timeString`);
      everything else `fmt.Sprint` (nil ⇒ `<nil>`);
    * otherwise (`any` with a nil value, `time.Time` with a non-time value) `TypeError`.
 -/
@@ -224,7 +225,7 @@ def convert (v0 : GoVal) (t : ParamTy) : Res Cause GoVal :=
   | .str =>
     match v with
     | .bytes b => .ok (.str b)
-    | .time _ => .unmodelled "time.Time.String"
+    | .time u => (timeString u).bind fun b => .ok (.str b)
     -- a whole-number float is the text an object node prints (`writeObject`), not fmt's exponent form
     | .flt k q => (if isWholeSmall q then fmtFloatF k q else fmtFloatG k q).bind fun b => .ok (.str b)
     | w => (sprint w).bind fun b => .ok (.str b)
@@ -244,5 +245,9 @@ def convert (v0 : GoVal) (t : ParamTy) : Res Cause GoVal :=
   | .time =>
     match v with
     | .time u => .ok (.time u)
-    | .str _ => .unmodelled "ParseDate"
+    | .str s =>
+      match Cal.parseDate s with
+      | .time u => .ok (.time u)
+      | .reject => .err .typeErr
+      | .unknown => .unmodelled "ParseDate: a string that is not one of the all-digit layouts (or `now`: the clock)"
     | _ => .err .typeErr
